@@ -27,7 +27,7 @@ MANIFEST = dict(
 
 FINISH = dict(level="proof",
               rule="datasets: kind x archive format x dimension x batch-size lists (incl. no batch, empty batches, single element) "
-                   "from one SplitMix64 stream; objects: every harness label x {text, binary} (optimizers after k in 0..4 steps); "
+                   "from one SplitMix64 stream; objects: every harness label x {text, binary} (optimizers after k in 0..4 (thorough: up to 25) steps); "
                    "non-trivial = dataset with >= 2 batches or any object case; distinct = distinct op text")
 
 LAKE_TARGETS = ["SharkVerif.Props.C18", "drv_c18"]
@@ -35,7 +35,8 @@ LAKE_TARGETS = ["SharkVerif.Props.C18", "drv_c18"]
 # harness label -> classes whose generated obligations the prediction rests on
 OBJECTS = {
     "LinearModel-offset": "LinearModel", "LinearModel-nooffset": "LinearModel",
-    "Normalizer": "Normalizer",
+    "Normalizer": "Normalizer", "LinearClassifier": "Classifier,LinearModel", "LinearModel-float": "LinearModel",
+    "RBFLayer": "RBFLayer",
     "ConcatenatedModel": "ConcatenatedModel,LinearModel", "ConcatenatedModel-frozen-layer": "ConcatenatedModel,LinearModel",
     "GaussianRbfKernel": "GaussianRbfKernel", "GaussianRbfKernel-unconstrained": "GaussianRbfKernel",
     "LinearKernel": "LinearKernel", "PolynomialKernel": "PolynomialKernel", "MonomialKernel": "MonomialKernel",
@@ -70,13 +71,13 @@ def gen_ds(r, ctx=None):
     return f"ds {kind} {fmt} {dim} {r.below(50)} " + " ".join(map(str, bs))
 
 
-def object_ops(ctx=None):
+def object_ops(ctx=None, warm=(0, 1, 2, 4)):
     ops = []
     for fmt in ("text", "binary"):
         for lab, cls in OBJECTS.items():
             ops.append(f"obj {lab} {fmt} {cls}")
         for lab, cls in OPTIMIZERS.items():
-            for k in (0, 1, 2, 4):
+            for k in warm:
                 ops.append(f"obj {lab}-after-{k} {fmt} {cls}")
     if ctx:
         for o in ops: ctx.hist("object_class", o.split()[1].split("-")[0])
@@ -141,11 +142,11 @@ def run(ctx):
     drv = ctx.driver("drv_c18")
     if not exe or not drv:
         return
-    nds = 300 if ctx.quick else 4000
+    nds = 300 if ctx.quick else 20000
     cases = load_corpus()
     ctx.cov["corpus_cases"] = len(cases)
     r = ctx.rng.fork("c18")
-    cases += [[o] for o in object_ops(ctx)]
+    cases += [[o] for o in object_ops(ctx, (0, 1, 2, 4) if ctx.quick else (0, 1, 2, 3, 4, 7, 12, 25))]
     cases += [[gen_ds(r, ctx)] for _ in range(nds)]
     ctx.cov["evaluations"] = len(cases)
     ctx.cov["distinct_nontrivial"] = len({c[0] for c in cases if c[0].startswith("obj") or len(c[0].split()) >= 7})
